@@ -17,7 +17,9 @@ CFG = dict(
     rule="inputs = lists of 0..6 profiles instantiated from one pool of functions/mappings/locations/samples with per-profile id "
          "layouts (dense, shuffled, sparse/huge, rotated so ids collide) and load addresses; duplicate records INSIDE one input (same stack and labels; cancelling, partly cancelling, cancelling in one column, "
          "three-way, int64-wrap cancelling, adding + literal zero, cancel-and-revive; with both / no / string / numeric labels; as a one-element "
-         "list through Merge and through p.Compact(), and in 2-3 input lists); systematic single-attribute pairs (61 "
+         "list through Merge and through p.Compact(), and in 2-3 input lists); histories (an input or an earlier RESULT that has been through Merge/Compact is edited in place -- Aggregate flags, "
+         "attributes made alike or made different, random point edits -- and merged / compacted again; random sessions over live "
+         "profiles; every operation is judged on the dump taken immediately before it); systematic single-attribute pairs (61 "
          "attributes of mapping/function/line/location/label/num-label/stack x same-profile, two-profile, crossed, cancelling); header "
          "rule tables (times with zeros/negatives, periods, wrapping durations, comments), incompatible/empty/nil-period-type lists, "
          "GenProfile lists incl. a profile with itself or its negation, regression witnesses F1/F2/F24, finding F25; 100+ sampleKey byte "
@@ -25,7 +27,7 @@ CFG = dict(
          "inputs; attr-two/cross/cancel by construction)",
     spec_what="Merge result is not valid / does not conserve some stack's weights or totals / duplicates or keeps a zero stack / breaks a "
               "header rule / aliases or modifies its inputs / depends on input order / is not a fixed point of Compact",
-    trusted_base=["Go harness generators, reflect-based pointer-reachability and before/after dumps of the inputs (aliasing and "
+    trusted_base=["Go harness generators, reflect-based pointer-reachability and before/after snapshots of the inputs incl. unexported fields (aliasing and "
                   "mutation of inputs are observed on the Go side, not modelled)",
                   "pointer identity of entities is represented by ids: faithful for sources with unique ids (CheckValid); the per-source "
                   "id memo tables are transcribed in M_MergeMemo and proved not to change the result (merge_memo_equiv)",
